@@ -30,6 +30,16 @@ def budget(tier):
 
 @st.composite
 def dir1(draw):
+    if draw(st.integers(0, 79)) == 0:
+        # a file spanning several 16 MiB read pieces: chunks complete while the file is still being streamed
+        mx = draw(st.sampled_from([262144, 1048576]))
+        s = {'hashing': {'name': 'blake2b', 'length': 32}, 'chunking': {'min_length': mx // 8, 'max_length': mx},
+             'encryption': draw(st.sampled_from([None, {'cipher': {'name': 'chacha20_poly1305'}, 'kdf': {'name': 'blake2b'}}]))}
+        size = draw(st.sampled_from([2, 2, 3])) * 16_777_216 + draw(st.integers(-4, 4096))
+        return {'dir': 1, 'settings': s, 'snaps': [{'files': [{'path': 'd/big', 'content': [['r', 5, size]], 'mtime_ns': 10 ** 18 + 7},
+                                                            {'path': 'd/small', 'content': [['r', 6, 10]], 'mtime_ns': 10 ** 18 + 8}],
+                                                  'note': None}],
+                'concurrent': draw(st.sampled_from([1, 2])), 'backend': 'mem', 'big': True}
     s = draw(gen.settings(max_max=128))
     mn, mx = s['chunking']['min_length'], s['chunking']['max_length']
     nsnap = draw(st.integers(1, 3))
